@@ -16,7 +16,9 @@ CONTEXTS = ["none", "try_body", "tryfinally_body", "finally_body", "except_body"
             "in_with", "in_async_with", "else_of_try", "for_else"]
 TAILS = ["plain", "try_except_last", "try_finally_last", "if_return_const", "if_return_value", "if_break",
          "if_continue", "raise", "nested_with", "swallow", "empty", "if_else_return", "return_in_try_finally",
-         "nested_async_with", "try_except_else_last", "if_return_none", "oneline_pass", "try_finally_del", "while_last"]
+         "nested_async_with", "try_except_else_last", "if_return_none", "oneline_pass", "try_finally_del", "while_last",
+         # the body's last instruction carries inline cache entries (the exception-table range ends on a CACHE unit)
+         "store_attr_last", "store_subscr_last"]
 CONTS = ["nothing", "stmt", "second_with"]
 
 
@@ -114,6 +116,10 @@ def build(kind: str, ctx: str, is_async: bool, nitems: int, tail: str, cont: str
         body = ["y = 0", "try:"] + ind(S()) + ["finally:"] + ind(["del y"])
     elif tail == "while_last":
         body = S() + ["while E.n(3):"] + ind(S())
+    elif tail == "store_attr_last":
+        body = S() + ["E.a.b = 1"]
+    elif tail == "store_subscr_last":
+        body = S() + ["E.d[0] = 1"]
     elif tail == "if_else_return":
         body = ["if E.c(0):"] + ind(S() + ["return 1"]) + ["else:"] + ind(S())
     elif tail == "return_in_try_finally":
